@@ -557,3 +557,22 @@ Proof.
     exists (e :: pre), e', post, s2. split; [rewrite A; reflexivity|]. split; [simpl; rewrite E; exact B|exact C].
   - inversion H; subst. exists [], e, r, s. split; [reflexivity|]. split; [reflexivity|exact E].
 Qed.
+
+(* ---- boolean versions, for closed examples ----------------------------------------------------- *)
+Fixpoint nodupz (l : list Z) : bool :=
+  match l with [] => true | x :: r => negb (memz x r) && nodupz r end.
+Lemma nodupz_NoDup l : nodupz l = true -> NoDup l.
+Proof.
+  induction l as [|x r IH]; simpl; [constructor|]. rewrite andb_true_iff, negb_true_iff, memz_false.
+  intros [A B]. constructor; [exact A|exact (IH B)].
+Qed.
+Definition cf_b (evs : list ev) : bool :=
+  nodups (shared evs) && nodupz (msg_ids evs) && nodups (host_names evs) && nodupz (host_vals evs)
+  && nodups (mod_names evs) && nodupz (mod_vals evs).
+Lemma cf_b_sound evs : cf_b evs = true -> conflict_free evs.
+Proof.
+  unfold cf_b. rewrite !andb_true_iff. intros [[[[[A B] C] D] E] F].
+  constructor; first [apply nodups_NoDup; assumption | apply nodupz_NoDup; assumption].
+Qed.
+Lemma forallb_Forall {A} (p : A -> bool) l : forallb p l = true -> Forall (fun x => p x = true) l.
+Proof. intros H. apply Forall_forall. exact (proj1 (forallb_forall p l) H). Qed.
